@@ -53,7 +53,7 @@ theorem C01_choices_no_hole (ms : List Member) (h : ∀ m ∈ ms, m.name ≠ "")
 
 /-- the defect of the pinned commit: a hole for every unexported member -/
 theorem choicesOld_has_hole : ∃ ms : List Member, (∀ m ∈ ms, m.name ≠ "") ∧ "" ∈ enumChoicesOld ms :=
-  ⟨[⟨"A", "0", "0", "", true, true, 0⟩, ⟨"b", "1", "1", "", false, true, 1⟩], by decide, by decide⟩
+  ⟨[⟨"A", "0", "0", "", true, true, 0, ""⟩, ⟨"b", "1", "1", "", false, true, 1, ""⟩], by decide, by decide⟩
 
 /-- **primary-key accessor is an actual field**, whatever the spelling of `id` -/
 theorem C01_pk_accessor (cols : List String) (f : String) (h : pkAccessor cols = some f) :
